@@ -200,3 +200,38 @@ Definition fsrc_ok (n1 d1 n2 d2 c : Z) : bool :=
   (Z.abs c <=? two53) && (cn <=? two53) && (cd <=? two53) && (Z.abs (c * cn) <? two53)
   && (l <=? max64) && (t1 <=? two53) && (t2 <=? two53)
   && (Z.abs c * t1 + 2 * t2 <=? two53) && (Z.abs (floor_spec n1 d1 n2 d2 c) + 2 <=? two53).
+
+(** * mixed representations: duration<int64_t, P1>{c} op duration<double, P2>{y} and the reverse;
+   the common representation is double *)
+Definition id_common_m (a b : dty) : Z -> b64 -> out (b64 * b64) :=     (* (int64, P1), (double, P2) *)
+  let k := (do t <- dcommon a b; Val (dconv_i a t, dconv_d b t)) in
+  fun c y => do '(ca, cb) <- k; do u <- ca c; do v <- cb y; Val (u, v).
+Definition di_common_m (a b : dty) : b64 -> Z -> out (b64 * b64) :=     (* (double, P1), (int64, P2) *)
+  let k := (do t <- dcommon a b; Val (dconv_d a t, dconv_i b t)) in
+  fun x c => do '(ca, cb) <- k; do u <- ca x; do v <- cb c; Val (u, v).
+Definition id_plus_m (a b : dty) : Z -> b64 -> out b64 :=
+  let tc := id_common_m a b in fun c y => do '(u, v) <- tc c y; Val (dadd u v).
+Definition id_minus_m (a b : dty) : Z -> b64 -> out b64 :=
+  let tc := id_common_m a b in fun c y => do '(u, v) <- tc c y; Val (dsub u v).
+Definition id_lt_m (a b : dty) : Z -> b64 -> out bool :=
+  let tc := id_common_m a b in fun c y => do '(u, v) <- tc c y; Val (dlt u v).
+Definition id_eq_m (a b : dty) : Z -> b64 -> out bool :=
+  let tc := id_common_m a b in fun c y => do '(u, v) <- tc c y; Val (deq u v).
+Definition di_plus_m (a b : dty) : b64 -> Z -> out b64 :=
+  let tc := di_common_m a b in fun x c => do '(u, v) <- tc x c; Val (dadd u v).
+Definition di_minus_m (a b : dty) : b64 -> Z -> out b64 :=
+  let tc := di_common_m a b in fun x c => do '(u, v) <- tc x c; Val (dsub u v).
+Definition di_lt_m (a b : dty) : b64 -> Z -> out bool :=
+  let tc := di_common_m a b in fun x c => do '(u, v) <- tc x c; Val (dlt u v).
+Definition di_eq_m (a b : dty) : b64 -> Z -> out bool :=
+  let tc := di_common_m a b in fun x c => do '(u, v) <- tc x c; Val (deq u v).
+
+(* duration<int64_t, P>{c} * s, s * d, d / s with a double scalar s: CD = duration<double, P>;
+   duration<double, P>{x} * k, d / k with an int64 scalar k (converted to double by the usual
+   arithmetic conversions) *)
+Definition is_mul_m (a : dty) : Z -> b64 -> out b64 :=
+  let cv := dconv_i a a in fun c s => do u <- cv c; Val (dmul u s).
+Definition is_div_m (a : dty) : Z -> b64 -> out b64 :=
+  let cv := dconv_i a a in fun c s => do u <- cv c; Val (ddiv u s).
+Definition ds_mul_m (x : b64) (k : Z) : b64 := dmul x (d_of_Z k).
+Definition ds_div_m (x : b64) (k : Z) : b64 := ddiv x (d_of_Z k).
